@@ -151,17 +151,24 @@ theorem resolve_iff (ts : List Task) (a n : Tok) : resolve ts a = some n ↔ Den
   · intro h
     cases h <;> simp_all
 
-/-- `Resolves ts args sel`: the command-line `args` denote the selection `sel` -/
-inductive Resolves (ts : List Task) : List Tok → List Tok → Prop
-  | nil : Resolves ts [] []
-  | pattern (a : Tok) (rest sel : List Tok) : hasStar a = true → Resolves ts rest sel →
-      Resolves ts (a :: rest) (wild ts a ++ sel)
-  | task (a : Tok) (t : Task) (rest rest' sel : List Tok) : hasStar a = false → find ts a = some t →
-      t.posArg = false → Consumes t.params rest rest' → Resolves ts rest' sel → Resolves ts (a :: rest) (a :: sel)
-  | taskPos (a : Tok) (t : Task) (rest rest' : List Tok) : hasStar a = false → find ts a = some t →
-      t.posArg = true → Consumes t.params rest rest' → Resolves ts (a :: rest) [a]
-  | other (a n : Tok) (rest sel : List Tok) : hasStar a = false → find ts a = none → Denotes ts a n →
-      Resolves ts rest sel → Resolves ts (a :: rest) (n :: sel)
+/-- `Resolves ts ini args sel`: the command-line `args` denote the selection `sel`, `ini` being the tasks whose options
+    are initialised already (named or matched by a pattern further left; `[]` for a whole command line).  A task's
+    options are parsed where it is named first (`task`, `taskPos`); naming it again selects it again and parses
+    nothing (`again`). -/
+inductive Resolves (ts : List Task) : List Tok → List Tok → List Tok → Prop
+  | nil (ini : List Tok) : Resolves ts ini [] []
+  | pattern (ini : List Tok) (a : Tok) (rest sel : List Tok) : hasStar a = true →
+      Resolves ts (ini ++ wild ts a) rest sel → Resolves ts ini (a :: rest) (wild ts a ++ sel)
+  | task (ini : List Tok) (a : Tok) (t : Task) (rest rest' sel : List Tok) : hasStar a = false →
+      find ts a = some t → ini.contains a = false → t.posArg = false → Consumes t.params rest rest' →
+      Resolves ts (a :: ini) rest' sel → Resolves ts ini (a :: rest) (a :: sel)
+  | taskPos (ini : List Tok) (a : Tok) (t : Task) (rest rest' : List Tok) : hasStar a = false →
+      find ts a = some t → ini.contains a = false → t.posArg = true → Consumes t.params rest rest' →
+      Resolves ts ini (a :: rest) [a]
+  | again (ini : List Tok) (a : Tok) (t : Task) (rest sel : List Tok) : hasStar a = false →
+      find ts a = some t → ini.contains a = true → Resolves ts ini rest sel → Resolves ts ini (a :: rest) (a :: sel)
+  | other (ini : List Tok) (a n : Tok) (rest sel : List Tok) : hasStar a = false → find ts a = none →
+      Denotes ts a n → Resolves ts ini rest sel → Resolves ts ini (a :: rest) (n :: sel)
 
 theorem bindOk_ok (r : Except Err (List Tok)) (f : List Tok → Except Err (List Tok)) (s : List Tok) :
     bindOk r f = .ok s ↔ ∃ l, r = .ok l ∧ f l = .ok s := by
@@ -211,9 +218,9 @@ theorem wild_sub_names (ts : List Task) (a : Tok) : ∀ x ∈ wild ts a, x ∈ n
   intro x hx
   exact (List.mem_filter.1 hx).1
 
-/-- the specification run of the filter loop followed by name resolution, at any sufficient fuel -/
+/-- the filter loop of the current code followed by name resolution, at any sufficient fuel -/
 theorem spec_run_iff (ts : List Task) (n : Nat) (ini args sel : List Tok) (hn : args.length < n) :
-    bindOk (pf ts false n ini args) (resolveAll ts) = .ok sel ↔ Resolves ts args sel := by
+    bindOk (pf ts false n ini args) (resolveAll ts) = .ok sel ↔ Resolves ts ini args sel := by
   induction n generalizing ini args sel with
   | zero => omega
   | succ n ih =>
@@ -221,7 +228,7 @@ theorem spec_run_iff (ts : List Task) (n : Nat) (ini args sel : List Tok) (hn : 
     | nil =>
       simp only [pf, bindOk, resolveAll]
       constructor
-      · intro h; cases h; exact .nil
+      · intro h; cases h; exact .nil ini
       · intro h; cases h; rfl
     | cons a rest =>
       simp only [List.length_cons] at hn
@@ -231,15 +238,16 @@ theorem spec_run_iff (ts : List Task) (n : Nat) (ini args sel : List Tok) (hn : 
         constructor
         · rintro ⟨l, ⟨l', hl', rfl⟩, hr⟩
           rcases (resolveAll_names_append ts _ _ _ (wild_sub_names ts a)).1 hr with ⟨s', hs', rfl⟩
-          exact .pattern a rest s' hs ((ih _ rest s' (by omega)).1 ((bindOk_ok _ _ _).2 ⟨l', hl', hs'⟩))
+          exact .pattern ini a rest s' hs ((ih _ rest s' (by omega)).1 ((bindOk_ok _ _ _).2 ⟨l', hl', hs'⟩))
         · intro h
           cases h with
-          | pattern _ _ s' _ hr =>
+          | pattern _ _ _ s' _ hr =>
             rcases (bindOk_ok _ _ _).1 ((ih (ini ++ wild ts a) rest s' (by omega)).2 hr) with ⟨l', hl', hs'⟩
             exact ⟨_, ⟨l', hl', rfl⟩, (resolveAll_names_append ts _ _ _ (wild_sub_names ts a)).2 ⟨s', hs', rfl⟩⟩
-          | task _ _ _ _ _ h1 => simp [h1] at hs
-          | taskPos _ _ _ _ h1 => simp [h1] at hs
-          | other _ _ _ _ h1 => simp [h1] at hs
+          | task _ _ _ _ _ _ h1 => simp [h1] at hs
+          | taskPos _ _ _ _ _ h1 => simp [h1] at hs
+          | again _ _ _ _ _ h1 => simp [h1] at hs
+          | other _ _ _ _ _ h1 => simp [h1] at hs
       · have hs' : hasStar a = false := by simpa using hs
         simp only [hs', Bool.false_eq_true, if_false]
         cases hf : find ts a with
@@ -248,65 +256,87 @@ theorem spec_run_iff (ts : List Task) (n : Nat) (ini args sel : List Tok) (hn : 
           constructor
           · rintro ⟨l, ⟨l', hl', rfl⟩, hr⟩
             rcases (resolveAll_cons ts a l' sel).1 hr with ⟨m, s', hm, hs2, rfl⟩
-            exact .other a m rest s' hs' hf ((resolve_iff ts a m).1 hm)
+            exact .other ini a m rest s' hs' hf ((resolve_iff ts a m).1 hm)
               ((ih ini rest s' (by omega)).1 ((bindOk_ok _ _ _).2 ⟨l', hl', hs2⟩))
           · intro h
             cases h with
-            | pattern _ _ _ h1 => simp [h1] at hs
-            | task _ t _ _ _ _ h1 => simp [hf] at h1
-            | taskPos _ t _ _ _ h1 => simp [hf] at h1
-            | other _ m _ s' _ _ hd hr =>
+            | pattern _ _ _ _ h1 => simp [h1] at hs
+            | task _ _ t _ _ _ _ h1 => simp [hf] at h1
+            | taskPos _ _ t _ _ _ h1 => simp [hf] at h1
+            | again _ _ t _ _ _ h1 => simp [hf] at h1
+            | other _ _ m _ s' _ _ hd hr =>
               rcases (bindOk_ok _ _ _).1 ((ih ini rest s' (by omega)).2 hr) with ⟨l', hl', hs2⟩
               exact ⟨_, ⟨l', hl', rfl⟩, (resolveAll_cons ts a l' _).2 ⟨m, s', (resolve_iff ts a m).2 hd, hs2, rfl⟩⟩
         | some t =>
           have hres : resolve ts a = some a := by simp [resolve, hf]
-          simp only [Bool.false_and, Bool.false_eq_true, if_false]
-          cases hd : dropOpts t.params rest with
-          | none =>
-            simp only [bindOk]
+          by_cases hi : ini.contains a = true
+          · simp only [hi, if_true, bindOk_ok, mapOk_ok]
             constructor
-            · intro h; cases h
+            · rintro ⟨l, ⟨l', hl', rfl⟩, hr⟩
+              rcases (resolveAll_cons ts a l' sel).1 hr with ⟨m, s', hm, hs2, rfl⟩
+              rw [hres] at hm; cases hm
+              exact .again ini a t rest s' hs' hf hi
+                ((ih ini rest s' (by omega)).1 ((bindOk_ok _ _ _).2 ⟨l', hl', hs2⟩))
             · intro h
               cases h with
-              | pattern _ _ _ h1 => simp [h1] at hs
-              | task _ t' _ rest' _ _ h1 _ hc =>
-                rw [hf] at h1; cases h1
-                rw [(dropOpts_iff _ _ _).2 hc] at hd; cases hd
-              | taskPos _ t' _ rest' _ h1 _ hc =>
-                rw [hf] at h1; cases h1
-                rw [(dropOpts_iff _ _ _).2 hc] at hd; cases hd
-              | other _ _ _ _ _ h1 => rw [hf] at h1; cases h1
-          | some rest' =>
-            have hlen := dropOpts_length _ _ _ hd
-            by_cases hp : t.posArg = true
-            · simp only [hp, if_true, bindOk, resolveAll, hres, mapOk]
+              | pattern _ _ _ _ h1 => simp [h1] at hs
+              | task _ _ _ _ _ _ _ _ h2 => rw [hi] at h2; cases h2
+              | taskPos _ _ _ _ _ _ _ h2 => rw [hi] at h2; cases h2
+              | again _ _ _ _ s' _ _ _ hr =>
+                rcases (bindOk_ok _ _ _).1 ((ih ini rest s' (by omega)).2 hr) with ⟨l', hl', hs2⟩
+                exact ⟨_, ⟨l', hl', rfl⟩, (resolveAll_cons ts a l' _).2 ⟨a, s', hres, hs2, rfl⟩⟩
+              | other _ _ _ _ _ _ h1 => rw [hf] at h1; cases h1
+          · have hi' : ini.contains a = false := by simpa using hi
+            simp only [hi', Bool.false_eq_true, if_false]
+            cases hd : dropOpts t.params rest with
+            | none =>
+              simp only [bindOk]
               constructor
               · intro h; cases h
-                exact .taskPos a t rest rest' hs' hf hp ((dropOpts_iff _ _ _).1 hd)
               · intro h
                 cases h with
-                | pattern _ _ _ h1 => simp [h1] at hs
-                | task _ t' _ _ _ _ h1 h2 => rw [hf] at h1; cases h1; simp [hp] at h2
-                | taskPos => rfl
-                | other _ _ _ _ _ h1 => rw [hf] at h1; cases h1
-            · have hp' : t.posArg = false := by simpa using hp
-              simp only [hp', Bool.false_eq_true, if_false, bindOk_ok, mapOk_ok]
-              constructor
-              · rintro ⟨l, ⟨l', hl', rfl⟩, hr⟩
-                rcases (resolveAll_cons ts a l' sel).1 hr with ⟨m, s', hm, hs2, rfl⟩
-                rw [hres] at hm; cases hm
-                exact .task a t rest rest' s' hs' hf hp' ((dropOpts_iff _ _ _).1 hd)
-                  ((ih _ rest' s' (by omega)).1 ((bindOk_ok _ _ _).2 ⟨l', hl', hs2⟩))
-              · intro h
-                cases h with
-                | pattern _ _ _ h1 => simp [h1] at hs
-                | task _ t' _ r2 s' _ h1 _ hc hr =>
+                | pattern _ _ _ _ h1 => simp [h1] at hs
+                | task _ _ t' _ rest' _ _ h1 _ _ hc =>
                   rw [hf] at h1; cases h1
                   rw [(dropOpts_iff _ _ _).2 hc] at hd; cases hd
-                  rcases (bindOk_ok _ _ _).1 ((ih (a :: ini) rest' s' (by omega)).2 hr) with ⟨l', hl', hs2⟩
-                  exact ⟨_, ⟨l', hl', rfl⟩, (resolveAll_cons ts a l' _).2 ⟨a, s', hres, hs2, rfl⟩⟩
-                | taskPos _ t' _ _ _ h1 h2 => rw [hf] at h1; cases h1; simp [hp'] at h2
-                | other _ _ _ _ _ h1 => rw [hf] at h1; cases h1
+                | taskPos _ _ t' _ rest' _ h1 _ _ hc =>
+                  rw [hf] at h1; cases h1
+                  rw [(dropOpts_iff _ _ _).2 hc] at hd; cases hd
+                | again _ _ _ _ _ _ _ h2 => rw [hi'] at h2; cases h2
+                | other _ _ _ _ _ _ h1 => rw [hf] at h1; cases h1
+            | some rest' =>
+              have hlen := dropOpts_length _ _ _ hd
+              by_cases hp : t.posArg = true
+              · simp only [hp, if_true, bindOk, resolveAll, hres, mapOk]
+                constructor
+                · intro h; cases h
+                  exact .taskPos ini a t rest rest' hs' hf hi' hp ((dropOpts_iff _ _ _).1 hd)
+                · intro h
+                  cases h with
+                  | pattern _ _ _ _ h1 => simp [h1] at hs
+                  | task _ _ t' _ _ _ _ h1 _ h2 => rw [hf] at h1; cases h1; simp [hp] at h2
+                  | taskPos => rfl
+                  | again _ _ _ _ _ _ _ h2 => rw [hi'] at h2; cases h2
+                  | other _ _ _ _ _ _ h1 => rw [hf] at h1; cases h1
+              · have hp' : t.posArg = false := by simpa using hp
+                simp only [hp', Bool.false_eq_true, if_false, bindOk_ok, mapOk_ok]
+                constructor
+                · rintro ⟨l, ⟨l', hl', rfl⟩, hr⟩
+                  rcases (resolveAll_cons ts a l' sel).1 hr with ⟨m, s', hm, hs2, rfl⟩
+                  rw [hres] at hm; cases hm
+                  exact .task ini a t rest rest' s' hs' hf hi' hp' ((dropOpts_iff _ _ _).1 hd)
+                    ((ih _ rest' s' (by omega)).1 ((bindOk_ok _ _ _).2 ⟨l', hl', hs2⟩))
+                · intro h
+                  cases h with
+                  | pattern _ _ _ _ h1 => simp [h1] at hs
+                  | task _ _ t' _ r2 s' _ h1 _ _ hc hr =>
+                    rw [hf] at h1; cases h1
+                    rw [(dropOpts_iff _ _ _).2 hc] at hd; cases hd
+                    rcases (bindOk_ok _ _ _).1 ((ih (a :: ini) rest' s' (by omega)).2 hr) with ⟨l', hl', hs2⟩
+                    exact ⟨_, ⟨l', hl', rfl⟩, (resolveAll_cons ts a l' _).2 ⟨a, s', hres, hs2, rfl⟩⟩
+                  | taskPos _ _ t' _ _ _ h1 _ h2 => rw [hf] at h1; cases h1; simp [hp'] at h2
+                  | again _ _ _ _ _ _ _ h2 => rw [hi'] at h2; cases h2
+                  | other _ _ _ _ _ _ h1 => rw [hf] at h1; cases h1
 
 theorem dropOpts_mem (ps : List Param) (l r : List Tok) (h : dropOpts ps l = some r) : ∀ x ∈ r, x ∈ l := by
   fun_induction dropOpts ps l generalizing r with
@@ -348,7 +378,15 @@ theorem pf_mem (ts : List Task) (head : Bool) (n : Nat) (ini args l : List Tok)
             · exact Or.inl (by simp [h1])
             · exact Or.inr h1
         · split at h
-          · cases h; intro x hx; simp at hx; subst hx; exact Or.inl (by simp)
+          · split at h
+            · cases h; intro x hx; simp at hx; subst hx; exact Or.inl (by simp)
+            · rcases (mapOk_ok _ _ _).1 h with ⟨l', hl', rfl⟩
+              intro x hx
+              rcases List.mem_cons.1 hx with rfl | hx
+              · exact Or.inl (by simp)
+              · rcases ih _ _ _ hl' x hx with h1 | h1
+                · exact Or.inl (by simp [h1])
+                · exact Or.inr h1
           · split at h
             · cases h
             · next rest' hd =>
@@ -377,7 +415,9 @@ theorem pf_no_fuel (ts : List Task) (head : Bool) (n : Nat) (ini args : List Tok
       · split
         · intro h; exact ih _ rest (by omega) ((mapOk_error _ _ _).1 h)
         · split
-          · simp
+          · split
+            · simp
+            · intro h; exact ih _ rest (by omega) ((mapOk_error _ _ _).1 h)
           · split
             · simp
             · next rest' hd =>
@@ -437,7 +477,9 @@ theorem notFound_sound (ts : List Task) (head : Bool) (args : List Tok) (a : Tok
           · split
             · intro h; exact ih _ _ ((mapOk_error _ _ _).1 h)
             · split
-              · simp
+              · split
+                · simp
+                · intro h; exact ih _ _ ((mapOk_error _ _ _).1 h)
               · split
                 · simp
                 · split
